@@ -1446,6 +1446,9 @@ class Exec:
             if name == 'clear':
                 del obj[:]
                 return None
+            if name == 'assign' and len(args) == 2 and isinstance(_i(args[0]), int):
+                obj[:] = [args[1] for _ in range(_i(args[0]))]
+                return None
             if name == 'begin': return ListIt(obj, 0)
             if name == 'end': return ListIt(obj, len(obj))
             if name == 'resize':
@@ -1484,6 +1487,10 @@ class Exec:
             if isinstance(a, int): return abs(a)
             av = SInt.ex(a) if isinstance(a, SInt) else D.lift(a).v
             return (a if s.truth(sp.Ge(av, 0)) else -a)
+        if name in ('min', 'max', 'lowest', 'epsilon', 'infinity') and len(args) == 0:
+            if 'numeric_limits' in s.cb:
+                return s.cb['numeric_limits'](name, n['type'].get('qualType', ''))
+            raise Unsupported('numeric_limits::%s without a contract' % name)
         if name in ('min', 'max'):
             a, b = args
             c = s.compare('<', b, a) if name == 'min' else s.compare('<', a, b)
